@@ -6,6 +6,21 @@ have exactly the fields of Semantics!LogE: k, a, b, c, d, v, t.
 """
 
 
+class Runaway(BaseException):
+    """One public call produced more observations than any bounded step can (the code under test loops)."""
+
+
+LOG_CAP = 4000
+
+
+class Log(list):
+    def append(self, e):
+        if len(self) >= LOG_CAP:
+            del self[200:]
+            raise Runaway()
+        list.append(self, e)
+
+
 def loge(k, a=0, b=0, c=0, d=0, v=0, t=0):
     return {'k': k, 'a': a, 'b': b, 'c': c, 'd': d, 'v': v, 't': t}
 
@@ -26,40 +41,41 @@ class Probes:
     """Callables handed to the statechart through initial_context."""
 
     def __init__(self, names=None):
-        self.log = []
+        self.log = Log()
         self.gv = []          # oracle script of the current call: gv[tid-1]
         self.cfail = 0        # index of the failing condition occurrence (0 = none)
         self.cnt = 0          # condition occurrences so far in this call
         self.clock = None     # set by the driver, for tick()
         self.ids = {}         # state name -> id (for active())
         self.interp = None
+        self.base = 0         # the clock's origin (runs that start at a large absolute time)
 
     # -- per-call script
     def arm(self, gv, cfail):
         self.gv = list(gv)
         self.cfail = cfail
         self.cnt = 0
-        self.log = []
+        self.log = Log()
 
     # -- code probes: p('x'|'a'|'e', id, x, time[, event])
     def p(self, kind, ident, x, time, event=None):
         if kind == 'a':
             e, par = ev_id(event)
-            self.log.append(loge('acode', ident, e, par, 0, x, time))
+            self.log.append(loge('acode', ident, e, par, 0, x, time - self.base))
         else:
-            self.log.append(loge('xcode' if kind == 'x' else 'ecode', ident, 0, 0, 0, x, time))
+            self.log.append(loge('xcode' if kind == 'x' else 'ecode', ident, 0, 0, 0, x, time - self.base))
 
     # -- guard oracle / guard tracer: g(tid, event, time[, value computed by sismic])
     def g(self, tid, event, time, val=None):
         v = bool(self.gv[tid - 1]) if val is None else bool(val)
         e, par = ev_id(event)
-        self.log.append(loge('guard', tid, e, par, 0, 1 if v else 0, time))
+        self.log.append(loge('guard', tid, e, par, 0, 1 if v else 0, time - self.base))
         return v
 
     # -- contract oracle: c(kind, owner, idx, time[, __old__])
     def c(self, ck, owner, idx, time, old=0, nbox=0, aft=None, idl=None):
         if aft is not None:      # post-conditions and invariants: what after(1) / idle(1) answer here
-            self.log.append(loge('ctime', owner, 1 if aft else 0, 1 if idl else 0, 0, 0, time))
+            self.log.append(loge('ctime', owner, 1 if aft else 0, 1 if idl else 0, 0, 0, time - self.base))
         self.cnt += 1
         ok = self.cnt != self.cfail
         if old == 0:          # precondition: no __old__ in scope
@@ -76,7 +92,7 @@ class Probes:
                     d = -4
             except Exception:
                 d = -3
-        self.log.append(loge('cond', ck, owner, idx, d, 1 if ok else 0, time))
+        self.log.append(loge('cond', ck, owner, idx, d, 1 if ok else 0, time - self.base))
         return ok
 
     def tick(self, d):
@@ -99,10 +115,10 @@ class Listener:
         if self.sync is None and self.interp is not None:
             from sismic.clock import SynchronizedClock
             self.sync = SynchronizedClock(self.interp)
-        t = self.sync.time if self.sync is not None else 0
+        t = self.sync.time - self.probes.base if self.sync is not None else 0
         ids = self.names
         if n == 'step started':
-            e = loge('start', meta.time, t=t)
+            e = loge('start', meta.time - self.probes.base, t=t)
         elif n == 'step ended':
             e = loge('end', t=t)
         elif n == 'event consumed':
@@ -156,6 +172,7 @@ class Mon:
         self.mfail = 0
         self.count = 0
         self.times = []
+        self.base = 0
 
     def arm(self, mfail):
         self.mfail = mfail
@@ -164,7 +181,7 @@ class Mon:
 
     def rec(self, event, time):
         self.count += 1
-        self.times.append(time)
+        self.times.append(time - self.base)
 
     def fire(self):
         return self.mfail != 0 and self.count == self.mfail
